@@ -234,6 +234,10 @@ def type_function(fn, param_kinds, fields=None, extra_env=None):
         env.update(extra_env)
     ty = Typer(env, fields=fields)
     rets = []
+    ty.defs = {}
+    for n in ast.walk(fn):
+        if isinstance(n, ast.Assign) and len(n.targets) == 1 and isinstance(n.targets[0], ast.Name):
+            ty.defs[n.targets[0].id] = n.value
 
     def visit(stmts):
         for st in stmts:
@@ -286,7 +290,7 @@ def rotation_sides(fn, ty):
     """every product  np.dot(a, b) / a @ b  in ``fn`` in which exactly one operand is a rotation operator (g.cartrot, g.rot,
     or a local typed as one) and the other is not an operator: yields (node, side, transposed?) with side 'left'/'right'.
     ``np.dot(v, R)`` with an untransposed R on the right is R^T v: the *inverse* rotation applied to v."""
-    for c in walk_local(fn):
+    for c in ast.walk(fn):      # nested helper functions included
         if isinstance(c, ast.Call) and (dotted(c.func) or '').split('.')[-1] == 'dot' and len(c.args) == 2 and not c.keywords:
             a, b = c.args
         elif isinstance(c, ast.BinOp) and isinstance(c.op, ast.MatMult):
@@ -294,6 +298,19 @@ def rotation_sides(fn, ty):
         else:
             continue
         ka, kb = ty.kind(a), ty.kind(b)
+        # lattice / inverse lattice on the right of real-space vectors (named as the docstrings name them: dx*, u*, x, v), singly
+        # or stacked as rows of an array: the product applies the transposed matrix.  (Reciprocal-space vectors k, q, G are
+        # legitimately multiplied from the left of the lattice and are not in the table.)
+        if kb in ('op:u2c', 'op:c2u') and not transposed(b) and not (isinstance(ka, str) and ka.startswith('op:')):
+            import re
+            names = {n.id for n in ast.walk(a) if isinstance(n, ast.Name)}
+            for n in list(names):
+                d = ty.defs.get(n) if hasattr(ty, 'defs') else None
+                if d is not None:
+                    names |= {m.id for m in ast.walk(d) if isinstance(m, ast.Name)}
+            if ka in VEC or any(re.fullmatch(r'dx\w*|u|u[0-9ijv]\w*|uvec|x|v', n) for n in names):
+                yield c, 'right', False
+                continue
         ra, rb = ka in ('op:cart', 'op:latt'), kb in ('op:cart', 'op:latt')
         oa, ob = isinstance(ka, str) and ka.startswith('op:'), isinstance(kb, str) and kb.startswith('op:')
         if ra and not ob:
